@@ -257,6 +257,31 @@ pub fn run(ctx: &Ctx) -> EvidenceMeta {
         },
         test,
     );
+    // several large frames per push: sizes next to the 16-bit limit and to one another, few cuts
+    ctx.proptest(
+        "large-frames",
+        ctx.n(1_500, 60_000),
+        || {
+            let big = prop_oneof![
+                3 => 65_531u32..=65_535,
+                1 => 32_766u32..=32_770,
+                1 => 65_000u32..=65_535,
+                1 => 0u32..=4,
+            ];
+            (
+                vec((big, any::<u64>()), 2..7),
+                vec(any::<u32>(), 0..3),
+                vec(prop_oneof![3 => Just(255u8), 1 => Just(1u8), 1 => Just(0u8), 1 => Just(2u8)], 1..3),
+            )
+                .prop_map(|(frames, cuts, pulls)| Case {
+                    frames,
+                    cuts,
+                    pulls,
+                    absolute: false,
+                })
+        },
+        test,
+    );
     // byte-by-byte delivery of a longer stream
     let mut items = vec![];
     for k in 0..ctx.n(20, 200) {
